@@ -98,14 +98,18 @@ impl VLinkFlow {
     }
 
     fn from_real(f: LinkFlow) -> Self {
-        VLinkFlow {
+        let v = VLinkFlow {
             handle: f.handle.0,
             delivery_count: f.delivery_count,
             link_credit: f.link_credit,
             available: f.available,
             drain: f.drain,
             echo: f.echo,
-        }
+        };
+        // `properties` is always `None` here (no wrapper asks for them); forgetting it keeps the
+        // recursive drop glue of `Value` out of the solver's formula
+        std::mem::forget(f.properties);
+        v
     }
 }
 
